@@ -33,6 +33,9 @@ def aggregate(rep, results, ref_only, oracles, api, note):
                 raise SystemExit('HARNESS-ERROR: nondeterministic replay for %s' % r['key'])
             key = '%s:%s:%s' % (r['key'], v['oracle'], dxlib.why_class(v['why']))
             rep.violation(key, '%s: %s (forced=%s, model margin=%s)' % (r['key'], v['why'], v['forced'], v['margin']), dxlib.replay_text(r, v, api))
+    if dxlib.SKIPPED:
+        exhaustive = False
+    cov['configurations_not_explored_before_the_deadline'] = dxlib.SKIPPED
     cov.update({
         'states': tot['states'], 'transitions': tot['transitions'], 'evaluations': tot['evaluations'],
         'distinct_nontrivial': tot['distinct'], 'traces_validated_against_impl': tot['validated'],
